@@ -204,7 +204,7 @@ async def get_target_async(env, mains, op):
         if t[0] == "err":
             raise type(t[1], (Exception,), {})()
         return t[1]
-    return await env.get_template_async(op["name"])
+    return await env.get_template_async(op["name"], globals=op.get("tglobals"))
 
 
 def norm(o):
@@ -393,6 +393,19 @@ class C17:
                 mains.append(DATE_MAIN)
             if rng.chance(0.6):
                 mains.extend(FILTER_MAINS)
+            if recipe["extra"] and rng.chance(0.5):
+                # template inheritance reached through render / include, and a render from inside a
+                # macro body: tags that restrict what a partial may do must not outlive the render
+                inh, top = G.gen_inheritance(rng, recipe["flags"])
+                templates.update(inh)
+                first = pnames[0]
+                for src in rng.sample([
+                        "{%% render '%s' %%}" % top, "{%% include '%s' %%}" % top,
+                        "{%% macro m %%}[{%% render '%s' %%}]{%% endmacro %%}{%% call m %%}" % first,
+                        "{%% macro m, a %%}({{ a }}{%% render '%s' %%}){%% endmacro %%}{%% call m, 1 %%}{%% call m, a: 2 %%}" % top,
+                        "{%% with a: 1 %%}{%% render '%s' %%}{%% endwith %%}" % top,
+                        "{%% for i in (1..2) %%}{%% render '%s' %%}{%% endfor %%}" % first], rng.randint(2, 4)):
+                    mains.insert(rng.randint(0, len(mains)), src)
             if rng.chance(0.3):
                 for _ in range(rng.randint(1, 2)):
                     mains.insert(rng.randint(0, len(mains)), rng.choice(BAD_MAINS))
@@ -438,9 +451,10 @@ class C17:
                 op["name"] = rng.choice(list(envs[e]["templates"]))
             op["mode"] = rng.choice(["sync", "async"])
             if with_tglobals and "name" in op:
-                # request globals on a (possibly cached, shared) template: the request and its render
-                # are one synchronous step, so no other request can re-assign them in between
-                op["mode"] = "sync"
+                # request globals on a (possibly cached, shared) template: a render captures the
+                # template's globals in the same step in which its request returns (sync: one call;
+                # async: no suspension between the two awaits), so no other request can re-assign
+                # them in between
                 op["tglobals"] = rng.choice([None, None, {"tg": "T1"}, {"tg": "T2", "site": "TS"}, {}])
             op["fp"] = rng.chance(0.5)
             if op["mode"] == "async" and rng.chance(0.12):
